@@ -1,4 +1,5 @@
 From Coq Require Import List NArith ZArith Bool Arith Lia.
+From PV Require Proofs.HwdiagsUtf8.
 From PV Require Import Base.Bytes Base.Lit Base.Json Base.Utf8 Base.PelTypes
                        Model.Hexdump Model.Parse Model.Render Spec.Encode Spec.DocOf Gen.Tables
                        Proofs.BytesFacts Proofs.HexdumpFacts Proofs.HexdumpRoundtrip Proofs.RenderFacts.
@@ -174,4 +175,21 @@ Proof.
   assert (utf8_encode txt = Some txt) as ->; [|destruct (JsonLoads.loads txt) as [[]| |]; reflexivity].
   clear - Ha. induction Ha as [|x t Hx Ht IH]; [reflexivity|]. cbn [utf8_encode]. unfold utf8_encode_cp.
   assert ((x <? 128) = true) as -> by (apply N.ltb_lt; exact Hx). rewrite IH. reflexivity.
+Qed.
+
+(* the same for any UTF-8 payload: b is the encoding of the text t *)
+Theorem builtin_json_utf8 e c h cr t b :
+  (is_bmc cr && (h_comp h =? 8192)) = true -> h_sub h = UserDataFormat_json ->
+  utf8_encode t = Some b -> strip_ws t = t -> rstrip_nul t = t ->
+  render_ud e c h cr b =
+    match JsonLoads.loads t with
+    | JsonLoads.LOk (JObj l) => Some (obj_update (base_fields e h cr (L "Created by")) l)
+    | JsonLoads.LOk j => Some (obj_set (base_fields e h cr (L "Created by")) (L "Data") j)
+    | JsonLoads.LError => Some (obj_set (base_fields e h cr (L "Created by")) (L "Data") (jstrs (hexdump b)))
+    | JsonLoads.LBeyond => Some (base_fields e h cr (L "Created by") ++ [(L "@loads", JStr t); (L "@fallback", jstrs (hexdump b))])
+    end.
+Proof.
+  intros Hb Hs He Hw Hn. unfold render_ud, ud_value_of. rewrite Hb. unfold builtin_value. rewrite Hs.
+  rewrite N.eqb_refl. cbv iota. rewrite (HwdiagsUtf8.utf8_roundtrip t b He), Hw, Hn. cbn [merge_value]. rewrite He.
+  destruct (JsonLoads.loads t) as [[]| |]; reflexivity.
 Qed.
